@@ -1,3 +1,406 @@
-//! verif harness entry for conductor_celestia (compiled into the repo crate under cfg(all(test, feature = "verif"))).
+//! S->I replay harness for spec/Quorum.tla, compiled into `astria_conductor::celestia`.
+//!
+//! `quorum_cases`  : every (validator powers, commit) case TLC enumerated -> real ed25519 keys, real
+//!                   canonical-vote signatures, real `ensure_commit_has_quorum`; the verdict (Ok / error variant)
+//!                   must equal the model's.
+//! `pipeline_cases`: metadata / rollup blobs through the real `decode_raw_blobs` -> `verify_metadata`
+//!                   (against a wiremock CometBFT RPC) -> `reconstruct_blocks_from_verified_blobs`.
+#![allow(clippy::all, clippy::pedantic)]
+use std::{
+    collections::HashMap,
+    panic::{
+        catch_unwind,
+        AssertUnwindSafe,
+    },
+    sync::Arc,
+};
+
+use astria_core::{
+    crypto::SigningKey,
+    primitive::v1::RollupId,
+    protocol::test_utils::ConfigureSequencerBlock,
+    sequencerblock::v1::block,
+};
+use prost::Message as _;
+use sequencer_client::{
+    tendermint::{
+        self,
+        block::{
+            Commit,
+            CommitSig,
+        },
+        validator,
+    },
+    tendermint_proto,
+    tendermint_rpc::{
+        self,
+        endpoint::validators,
+    },
+};
+use serde_json::{
+    json,
+    Value,
+};
+
+use super::block_verifier::{
+    ensure_commit_has_quorum,
+    QuorumError,
+};
+
+#[path = "/verif/harness/common/io.rs"]
+mod io;
+
+const CHAIN_ID: &str = "test-sequencer-0";
+
+fn key(i: usize) -> SigningKey {
+    // validator 0 is the "unknown" signer: a key that is not in the validator set
+    SigningKey::from([i as u8 + 17; 32])
+}
+
+fn info(i: usize, power: u64) -> validator::Info {
+    let pub_key =
+        tendermint::public_key::PublicKey::from_raw_ed25519(key(i).verification_key().as_ref()).unwrap();
+    validator::Info {
+        address: tendermint::account::Id::from(pub_key),
+        pub_key,
+        power: u32::try_from(power).unwrap().into(),
+        proposer_priority: 0.into(),
+        name: None,
+    }
+}
+
+fn block_id(hash: [u8; 32]) -> tendermint::block::Id {
+    tendermint::block::Id {
+        hash: tendermint::Hash::Sha256(hash),
+        part_set_header: tendermint::block::parts::Header::default(),
+    }
+}
+
+fn timestamp() -> tendermint::Time {
+    tendermint::Time::from_unix_timestamp(1, 1).unwrap()
+}
+
+fn vote_bytes(height: u32, hash: [u8; 32]) -> Vec<u8> {
+    let canonical_vote = tendermint::vote::CanonicalVote {
+        vote_type: tendermint::vote::Type::Precommit,
+        height: height.into(),
+        round: 0u16.into(),
+        block_id: Some(block_id(hash)),
+        timestamp: Some(timestamp()),
+        chain_id: CHAIN_ID.try_into().unwrap(),
+    };
+    tendermint_proto::types::CanonicalVote::from(canonical_vote).encode_length_delimited_to_vec()
+}
+
+const HASH_H: [u8; 32] = [0x48; 32];
+const HASH_X: [u8; 32] = [0x58; 32];
+
+/// Signature cache: (validator, kind, height) -> signature over the appropriate message.
+struct Signer {
+    cache: HashMap<(usize, String, u32), tendermint::Signature>,
+}
+
+impl Signer {
+    fn sig(&mut self, v: usize, kind: &str, height: u32) -> tendermint::Signature {
+        self.cache
+            .entry((v, kind.to_string(), height))
+            .or_insert_with(|| {
+                let raw = match kind {
+                    "valid" => key(v).sign(&vote_bytes(height, HASH_H)),
+                    // right message, wrong key
+                    "forged" => key(v + 100).sign(&vote_bytes(height, HASH_H)),
+                    // right key, a vote for another block
+                    "other" => key(v).sign(&vote_bytes(height, HASH_X)),
+                    _ => unreachable!(),
+                };
+                raw.to_bytes().as_ref().try_into().unwrap()
+            })
+            .clone()
+    }
+}
+
+fn make_commit(entries: &[Value], height: u32, signer: &mut Signer) -> Commit {
+    let signatures = entries
+        .iter()
+        .map(|e| {
+            let v = e["v"].as_u64().unwrap() as usize;
+            let validator_address = info(v, 1).address;
+            match e["kind"].as_str().unwrap() {
+                "absent" => CommitSig::BlockIdFlagAbsent,
+                "nil" => CommitSig::BlockIdFlagNil {
+                    validator_address,
+                    timestamp: timestamp(),
+                    signature: None,
+                },
+                "missing" => CommitSig::BlockIdFlagCommit {
+                    validator_address,
+                    timestamp: timestamp(),
+                    signature: None,
+                },
+                kind => CommitSig::BlockIdFlagCommit {
+                    validator_address,
+                    timestamp: timestamp(),
+                    signature: Some(signer.sig(v, kind, height)),
+                },
+            }
+        })
+        .collect();
+    Commit {
+        height: height.into(),
+        round: 0u16.into(),
+        block_id: block_id(HASH_H),
+        signatures,
+    }
+}
+
+fn make_validators(powers: &[u64], height: u32) -> validators::Response {
+    let infos: Vec<_> = powers.iter().enumerate().map(|(i, p)| info(i + 1, *p)).collect();
+    let n = infos.len() as i32;
+    validators::Response::new(height.into(), infos, n)
+}
+
+fn verdict_name(r: &Result<(), QuorumError>) -> &'static str {
+    match r {
+        Ok(()) => "ok",
+        Err(QuorumError::CommitHeightMismatch {
+            ..
+        }) => "CommitHeightMismatch",
+        Err(QuorumError::CommitVotingPowerExceedsTotal {
+            ..
+        }) => "CommitVotingPowerExceedsTotal",
+        Err(QuorumError::EmptySignature {
+            ..
+        }) => "EmptySignature",
+        Err(QuorumError::NoQuorum {
+            ..
+        }) => "NoQuorum",
+        Err(QuorumError::NoSuchValidator {
+            ..
+        }) => "NoSuchValidator",
+        Err(QuorumError::Signature(_)) => "Signature",
+        Err(QuorumError::TotalVotingPowerOverflowed) => "TotalVotingPowerOverflowed",
+        Err(QuorumError::ValidatorAddressMismatch {
+            ..
+        }) => "ValidatorAddressMismatch",
+        Err(QuorumError::VerificationKey(_)) => "VerificationKey",
+        Err(QuorumError::VerifyVoteSignature(_)) => "VerifyVoteSignature",
+        #[allow(unreachable_patterns)]
+        Err(_) => "DuplicateVote",
+    }
+}
+
 #[test]
-fn smoke() {}
+fn quorum_cases() {
+    let cases = io::read_cases();
+    let mut out = io::Writer::open();
+    let mut signer = Signer {
+        cache: HashMap::new(),
+    };
+    let chain_id: tendermint::chain::Id = CHAIN_ID.try_into().unwrap();
+    let scale = std::env::var("VERIF_POWER_SCALE").ok().and_then(|s| s.parse::<u64>().ok()).unwrap_or(1);
+    for (k, c) in cases.iter().enumerate() {
+        let powers: Vec<u64> = c["powers"].as_array().unwrap().iter().map(|p| p.as_u64().unwrap() * scale).collect();
+        let entries = c["commit"].as_array().unwrap();
+        let vals = make_validators(&powers, 7);
+        let commit = make_commit(entries, 7, &mut signer);
+        let got = catch_unwind(AssertUnwindSafe(|| ensure_commit_has_quorum(&commit, &vals, &chain_id)));
+        let observed = match &got {
+            Ok(r) => verdict_name(r),
+            Err(_) => "panic",
+        };
+        let expected = c["verdict"].as_str().unwrap();
+        let mut mism = vec![];
+        if observed != expected {
+            mism.push(json!({
+                "sig": format!("quorum:commit:expected={expected}:observed={observed}"),
+                "detail": {"powers": powers, "commit": c["commit"]},
+            }));
+        }
+        out.put(&json!({"case": k, "mismatches": mism}));
+    }
+}
+
+// ---------------------------------------------------------------------------------------------
+// pipeline
+// ---------------------------------------------------------------------------------------------
+fn rollup_id_target() -> RollupId {
+    RollupId::new([24; 32])
+}
+
+fn rollup_id_other() -> RollupId {
+    RollupId::new([99; 32])
+}
+
+fn signed_header(height: u32, commit: Commit) -> tendermint::block::signed_header::SignedHeader {
+    tendermint::block::signed_header::SignedHeader::new(
+        tendermint::block::Header {
+            version: tendermint::block::header::Version {
+                block: 1,
+                app: 1,
+            },
+            chain_id: CHAIN_ID.try_into().unwrap(),
+            height: height.into(),
+            time: timestamp(),
+            last_block_id: None,
+            last_commit_hash: None,
+            data_hash: None,
+            validators_hash: tendermint::Hash::Sha256([0; 32]),
+            next_validators_hash: tendermint::Hash::Sha256([0; 32]),
+            consensus_hash: tendermint::Hash::Sha256([0; 32]),
+            app_hash: tendermint::AppHash::default(),
+            last_results_hash: None,
+            evidence_hash: None,
+            proposer_address: info(1, 1).address,
+        },
+        commit,
+    )
+    .unwrap()
+}
+
+async fn mount(server: &wiremock::MockServer, height: u32, commit: Commit, vals: validators::Response) {
+    use wiremock::{
+        matchers::body_partial_json,
+        Mock,
+        ResponseTemplate,
+    };
+    Mock::given(body_partial_json(json!({"jsonrpc": "2.0", "method": "commit", "params": {"height": height.to_string()}})))
+        .respond_with(ResponseTemplate::new(200).set_body_json(tendermint_rpc::response::Wrapper::new_with_id(
+            tendermint_rpc::Id::uuid_v4(),
+            Some(tendermint_rpc::endpoint::commit::Response {
+                signed_header: signed_header(height, commit),
+                canonical: true,
+            }),
+            None,
+        )))
+        .mount(server)
+        .await;
+    Mock::given(body_partial_json(json!({"jsonrpc": "2.0", "method": "validators", "params": {"height": height.to_string()}})))
+        .respond_with(ResponseTemplate::new(200).set_body_json(tendermint_rpc::response::Wrapper::new_with_id(
+            tendermint_rpc::Id::uuid_v4(),
+            Some(vals),
+            None,
+        )))
+        .mount(server)
+        .await;
+}
+
+fn blob(ns: celestia_types::nmt::Namespace, bytes: Vec<u8>) -> celestia_types::Blob {
+    celestia_types::Blob::new(ns, bytes, celestia_types::AppVersion::V3).unwrap()
+}
+
+#[tokio::test]
+async fn pipeline_cases() {
+    use astria_core::generated::astria::sequencerblock::v1::{
+        SubmittedMetadataList,
+        SubmittedRollupDataList,
+    };
+    let cases = io::read_cases();
+    let mut out = io::Writer::open();
+    let mut signer = Signer {
+        cache: HashMap::new(),
+    };
+    let server = wiremock::MockServer::start().await;
+    // height 11: every validator signs; height 12: nobody does
+    let nv = 3usize;
+    let all: Vec<Value> = (1..=nv).map(|v| json!({"v": v, "kind": "valid"})).collect();
+    let none: Vec<Value> = (1..=nv).map(|v| json!({"v": v, "kind": "absent"})).collect();
+    mount(&server, 11, make_commit(&all, 11, &mut signer), make_validators(&vec![1; nv], 11)).await;
+    mount(&server, 12, make_commit(&none, 12, &mut signer), make_validators(&vec![1; nv], 12)).await;
+    let client = sequencer_client::HttpClient::new(server.uri().as_str()).unwrap();
+    let (_tx, state_rx) = crate::state::channel(crate::test_utils::make_rollup_state(
+        "verif".to_string(),
+        crate::test_utils::make_execution_session_parameters(),
+        crate::test_utils::make_commitment_state(),
+    ));
+    let seq_ns = astria_core::celestia::namespace_v0_from_sha256_of_bytes(CHAIN_ID.as_bytes());
+    let rollup_ns = astria_core::celestia::namespace_v0_from_rollup_id(rollup_id_target());
+
+    for (k, c) in cases.iter().enumerate() {
+        // a fresh verifier per case: its cache must not carry verdicts over
+        let verifier = Arc::new(super::verify::BlobVerifier::try_new(client.clone(), 1000).unwrap());
+        let signed = c["commit"][0]["kind"] == "valid";
+        let height: u32 = if signed { 11 } else { 12 };
+        let meta_hash = if c["meta"]["hash"] == "h" { HASH_H } else { HASH_X };
+        let meta_chain = if c["meta"]["chain"] == "c" { CHAIN_ID } else { "some-other-chain" };
+        let rid_is_target = c["rblob"]["rid"] == "target";
+        let has_rblob = c["rblob"]["hash"] != "-" && rid_is_target;
+        // the sequencer block lists the target rollup iff the model says so
+        let lists_target = c["rblob"]["hash"] != "-" && rid_is_target;
+        let rid = if lists_target { rollup_id_target() } else { rollup_id_other() };
+        let blk = ConfigureSequencerBlock {
+            block_hash: Some(block::Hash::new(meta_hash)),
+            chain_id: Some(meta_chain.to_string()),
+            height,
+            sequence_data: vec![(rid, b"hello_world".to_vec()), (rid, b"second".to_vec())],
+            unix_timestamp: (1i64, 1u32).into(),
+            signing_key: Some(key(1)),
+            ..Default::default()
+        }
+        .make();
+        let (head, tail) = blk.split_for_celestia();
+        let header_list = SubmittedMetadataList {
+            entries: vec![head.into_raw()],
+        };
+        let mut rollup_entries = vec![];
+        if has_rblob {
+            let mut raw = tail.into_iter().find(|t| t.rollup_id() == rollup_id_target()).unwrap().into_raw();
+            let want_hash = if c["rblob"]["hash"] == "h" { HASH_H } else { HASH_X };
+            raw.sequencer_block_hash = want_hash.to_vec().into();
+            if c["rblob"]["proof"] == "bad" {
+                raw.transactions.push(b"smuggled".to_vec().into());
+            }
+            rollup_entries.push(raw);
+        }
+        let header_blobs = vec![
+            blob(seq_ns, b"not brotli at all".to_vec()),
+            blob(seq_ns, astria_core::brotli::compress_bytes(b"brotli but not protobuf \xff\xff\xff").unwrap()),
+            blob(rollup_ns, astria_core::brotli::compress_bytes(&header_list.encode_to_vec()).unwrap()), // wrong namespace
+            blob(seq_ns, astria_core::brotli::compress_bytes(&header_list.encode_to_vec()).unwrap()),
+        ];
+        let mut rollup_blobs = vec![blob(rollup_ns, vec![0xde, 0xad]), blob(rollup_ns, vec![])];
+        if !rollup_entries.is_empty() {
+            let list = SubmittedRollupDataList {
+                entries: rollup_entries,
+            };
+            rollup_blobs.push(blob(rollup_ns, astria_core::brotli::compress_bytes(&list.encode_to_vec()).unwrap()));
+        }
+        let raw = super::fetch::RawBlobs {
+            celestia_height: 5,
+            header_blobs,
+            rollup_blobs,
+        };
+        let decoded = catch_unwind(AssertUnwindSafe(|| super::convert::decode_raw_blobs(raw, rollup_ns, seq_ns)));
+        let mut mism = vec![];
+        let observed = match decoded {
+            Err(_) => "panic:decode".to_string(),
+            Ok(converted) => {
+                let verified = super::verify::verify_metadata(verifier, converted, state_rx.clone()).await;
+                match catch_unwind(AssertUnwindSafe(|| {
+                    super::reconstruct::reconstruct_blocks_from_verified_blobs(verified, rollup_id_target())
+                })) {
+                    Err(_) => "panic:reconstruct".to_string(),
+                    Ok(blocks) => match blocks.as_slice() {
+                        [] => "none".to_string(),
+                        [b] if b.transactions.is_empty() => "empty".to_string(),
+                        [b] => {
+                            if b.transactions.len() == 2 && b.block_hash.get() == meta_hash {
+                                "with_data".to_string()
+                            } else {
+                                format!("with_unexpected_data:{}", b.transactions.len())
+                            }
+                        }
+                        more => format!("{}_blocks", more.len()),
+                    },
+                }
+            }
+        };
+        let expected = c["reconstructed"].as_str().unwrap();
+        if observed != expected {
+            mism.push(json!({
+                "sig": format!("quorum:pipeline:expected={expected}:observed={observed}"),
+                "detail": {"commit_signed": signed, "meta": c["meta"], "rblob": c["rblob"]},
+            }));
+        }
+        out.put(&json!({"case": k, "mismatches": mism}));
+    }
+}
